@@ -61,7 +61,9 @@ Record obj := {
   o_next : option str;      (* data.get("@odata.nextLink") *)
   o_id : option str;        (* data.get("id") when it is a str *)
   o_token : option str;     (* data.get("access_token") *)
-  o_folder : bool           (* "folder" in data *)
+  o_folder : bool;          (* "folder" in data *)
+  o_ok : bool               (* listing shape: "value" absent or a list, "@odata.nextLink" absent, null or a str
+                               (checked by _get_page, fixes/C18-malformed-listing-body.patch) *)
 }.
 
 Inductive body := BObj (o : obj) | BBadJson | BNonObj | BBadUtf8.
@@ -69,6 +71,9 @@ Inductive body := BObj (o : obj) | BBadJson | BNonObj | BBadUtf8.
 Inductive resp :=
 | RHttpError (code : Z)               (* request_func raises urllib.error.HTTPError *)
 | RUrlError                           (* request_func raises urllib.error.URLError *)
+| ROsError                            (* request_func raises another OSError / http.client.HTTPException
+                                         (TimeoutError, ConnectionResetError, RemoteDisconnected) *)
+| RReadError                          (* a response object is returned, its read() raises OSError / HTTPException *)
 | ROk (status : option Z) (b : body). (* request_func returns a response object *)
 
 Record req := { r_url : str; r_auth : option str }.   (* full_url, bearer token of the Authorization header *)
@@ -129,6 +134,8 @@ Definition send (w : world) (is_tok : bool) (r : req) (s : st) : res body * st :
   match w (nreq s) r with
   | RHttpError code => (Raise (RequestError (Some code) (r_url r)), open_close s1)
   | RUrlError => (Raise (RequestError None (r_url r)), s1)
+  | ROsError => (Raise (RequestError None (r_url r)), s1)
+  | RReadError => (Raise (RequestError None (r_url r)), open_close s1)   (* closed in `finally` *)
   | ROk status b =>
       if is_2xx status then (Ok b, open_close s1)
       else (Raise (RequestError status (r_url r)), open_close s1)
@@ -244,7 +251,9 @@ Fixpoint list_items_paginated (E : env) (fuel : nat) (cur : option str) (path : 
     match fuel with
     | 0 => Fail OutOfFuel
     | S f => ApiGet (dflt cur) (fun o =>
-               bind (list_items_paginated E f (o_next o) path) (fun r => Ret (files_of E path (o_value o) ++ r)))
+               if o_ok o then
+                 bind (list_items_paginated E f (o_next o) path) (fun r => Ret (files_of E path (o_value o) ++ r))
+               else Fail (RequestError None (dflt cur)))
     end
   else Ret [].
 
@@ -254,7 +263,8 @@ Fixpoint get_folders (fuel : nat) (cur : option str) : prog (list (option str * 
     match fuel with
     | 0 => Fail OutOfFuel
     | S f => ApiGet (dflt cur) (fun o =>
-               bind (get_folders f (o_next o)) (fun r => Ret (folders_of (o_value o) ++ r)))
+               if o_ok o then bind (get_folders f (o_next o)) (fun r => Ret (folders_of (o_value o) ++ r))
+               else Fail (RequestError None (dflt cur)))
     end
   else Ret [].
 
@@ -488,7 +498,7 @@ Definition item_of (n : node) : item :=
 Definition paging := option str -> list (nat * str).
 
 Definition page_obj (items : list item) (next : option str) : obj :=
-  {| o_value := items; o_next := next; o_id := None; o_token := None; o_folder := false |}.
+  {| o_value := items; o_next := next; o_id := None; o_token := None; o_folder := false; o_ok := true |}.
 
 Fixpoint pages (url : str) (cuts : list (nat * str)) (items : list item) : list (str * obj) :=
   match cuts with
@@ -516,7 +526,7 @@ Section Server.
     folder_entries None T ++ flat_map node_entries T.
 
   Definition item_obj (i : option str) (is_folder : bool) : obj :=
-    {| o_value := []; o_next := None; o_id := i; o_token := None; o_folder := is_folder |}.
+    {| o_value := []; o_next := None; o_id := i; o_token := None; o_folder := is_folder; o_ok := true |}.
 
   (* items addressable by path (root:/a/b): folders and files that have a name *)
   Fixpoint node_path_entries (path : str) (n : node) : list (str * obj) :=
@@ -536,9 +546,9 @@ Section Server.
 End Server.
 
 Definition token_obj (t : str) : obj :=
-  {| o_value := []; o_next := None; o_id := None; o_token := Some t; o_folder := false |}.
+  {| o_value := []; o_next := None; o_id := None; o_token := Some t; o_folder := false; o_ok := true |}.
 Definition site_obj (i : str) : obj :=
-  {| o_value := []; o_next := None; o_id := Some i; o_token := None; o_folder := false |}.
+  {| o_value := []; o_next := None; o_id := Some i; o_token := None; o_folder := false; o_ok := true |}.
 
 (* a healthy Graph endpoint over a table url -> object: the token endpoint issues `tk`, every other
    url needs that bearer token (401 otherwise) and is served from the table (404 when unknown) *)
@@ -611,7 +621,10 @@ Definition need (P : paging) (oid : option str) (ch : list node) : nat :=
 (* fault kinds of the property: HTTP error, network error, non-2xx status without exception,
    undecodable body, syntactically broken JSON, JSON that is not an object *)
 Inductive fault :=
-| FHttp (code : Z) | FUrl | FStatus (status : option Z) | FBadJson | FNonObj | FBadUtf8.
+| FHttp (code : Z) | FUrl | FStatus (status : option Z) | FBadJson | FNonObj | FBadUtf8
+| FOs                    (* TimeoutError / ConnectionResetError / RemoteDisconnected raised by the transport *)
+| FRead                  (* read() of the returned response raises *)
+| FBadPage (o : obj).    (* a JSON object of the wrong shape: "value" not a list or nextLink not a string *)
 
 Definition resp_of_fault (f : fault) : resp :=
   match f with
@@ -621,10 +634,17 @@ Definition resp_of_fault (f : fault) : resp :=
   | FBadJson => ROk (Some 200%Z) BBadJson
   | FNonObj => ROk (Some 200%Z) BNonObj
   | FBadUtf8 => ROk (Some 200%Z) BBadUtf8
+  | FOs => ROsError
+  | FRead => RReadError
+  | FBadPage o => ROk (Some 200%Z) (BObj o)
   end.
 
 Definition fault_ok (f : fault) : bool :=
-  match f with FStatus st => negb (is_2xx st) | _ => true end.
+  match f with
+  | FStatus st => negb (is_2xx st)
+  | FBadPage o => negb (o_ok o) && match o_id o with None => true | _ => false end && negb (truthy (o_token o))
+  | _ => true
+  end.
 
 (* the client's error for a fault at a token request / an API request to `u` *)
 Definition err_of (is_tok : bool) (u : str) (f : fault) : err :=
@@ -632,5 +652,6 @@ Definition err_of (is_tok : bool) (u : str) (f : fault) : err :=
   | FHttp c => RequestError (Some c) u
   | FUrl => RequestError None u
   | FStatus st => RequestError st u
+  | FOs | FRead => RequestError None u
   | _ => if is_tok then AuthError else RequestError None u
   end.
